@@ -13,7 +13,7 @@
     /// a set with an arbitrary base and the two members base+1 and base+5 (structure concrete: num_bits = 6, one bitmap word)
     fn any_sn_set() -> SequenceNumberSet {
         let base: i64 = kani::any();
-        kani::assume(base <= i64::MAX - 64);
+        kani::assume(base >= 1 && base <= i64::MAX - 64);
         SequenceNumberSet::new(base, [base + 1, base + 5])
     }
     /// submessage-level: write header + elements with the real writer, read the header back with the real header decoder
